@@ -15,6 +15,8 @@ ASSUME Thm_UnknownIff
 ASSUME Thm_Precedence
 ASSUME Thm_InconsistentUnknown
 ASSUME Thm_NonceHeadlessTouch
+ASSUME Thm_PairUnknown
+ASSUME Thm_PairBasesCover
 ASSUME Thm_Option
 ASSUME Thm_AllReachable
 ASSUME Thm_Principals
@@ -27,7 +29,7 @@ TPt == (-2..5) \cup {-1000001, 1000001}
 Ut  == -1..3
 Vt  == 0..3
 K05 == {"enc", "dec", "mut", "junk"}
-K19 == {"cert", "certjunk", "nil", "prins", "shim"}
+K19 == {"cert", "certjunk", "certpair", "nil", "prins", "shim"}
 \* every case, with the design's verdict for information (the harness does not judge; TLC does, in TraceKeyID)
 EmitCase == (ev'.op # "init") => PrintT(<<"CASE", ToJson([c |-> ev'.cs, ok |-> ev'.ok, ty |-> ev'.ty])>>)
 Inv_C05 == C05_Holds(ev)
